@@ -842,33 +842,55 @@ def d5(ctx, rep):
                   'subclasses: Bivariate(copula_type=...) returns None or the wrong class', construct=f'CopulaTypes.{m}')
     tenum = prog.cls('copulas.multivariate.tree.TreeTypes')
     gt = prog.func('copulas.multivariate.tree.get_tree')
-    covered = {}
-    from ..idioms import enum_paths
-    for p in enum_paths(gt.body()):
-        if not isinstance(p.end, ast.Return) or p.end.value is None:
-            continue
-        last = [t for t, pol in p.conds if pol]
-        if not last:
-            continue
-        t = last[-1]
-        mem = [x.attr for x in ast.walk(t) if isinstance(x, ast.Attribute) and isinstance(x.value, ast.Name) and x.value.id == 'TreeTypes']
-        clsq = prog.resolve(gt.module, p.end.value.func) if isinstance(p.end.value, ast.Call) else None
-        if clsq not in prog.classes and isinstance(p.end.value, ast.Call) and isinstance(p.end.value.func, ast.Name):
-            # return tree_class() with tree_class assigned on this path
-            last = [s_ for s_ in p.stmts if isinstance(s_, ast.Assign) and isinstance(s_.targets[0], ast.Name) and s_.targets[0].id == p.end.value.func.id]
-            if last:
-                clsq = prog.resolve(gt.module, last[-1].value)
-        if mem and clsq in prog.classes:
-            covered[mem[-1]] = prog.classes[clsq]
+    # for each member M: under `tree_type == TreeTypes.M` (and no other member), which return is taken and what does it build?
+    from ..boolcond import Conds, atoms_of, satisfiable, substitute
+    import re as _re
+    tp = gt.params[0] if gt.params else 'tree_type'
+    cd = Conds(prog, gt)
+    _normal, _rs, rets_ = cd.exits()
+    member_atoms = {}
+    for _st, c_ in rets_:
+        for k in atoms_of(c_):
+            m_ = _re.match(r'eq\[(.+)\|(.+)\]$', k)
+            if m_:
+                for side in m_.groups():
+                    mm = _re.match(r'TreeTypes\.([A-Z_]+)$', side)
+                    if mm and tp in m_.groups():
+                        member_atoms[k] = mm.group(1)
+
+    def built_class(ret):
+        v = ret.value
+        clsq = prog.resolve(gt.module, v.func) if isinstance(v, ast.Call) else None
+        if clsq not in prog.classes and isinstance(v, ast.Call) and isinstance(v.func, ast.Name):
+            from ..idioms import single_def
+            d_ = single_def(gt.node, v.func.id)
+            clsq = prog.resolve(gt.module, d_) if isinstance(d_, ast.AST) else None
+        return prog.classes.get(clsq)
+
     for m in tenum.attrs:
-        c = covered.get(m)
-        tt = c.attrs.get('tree_type') if c else None
-        if c is None and not covered:
-            rep.undecided('D5.dispatch', gt, gt.node.name, 'dispatch of get_tree not recognised', construct=f'TreeTypes.{m}')
+        cons = f'TreeTypes.{m}'
+        if not member_atoms:
+            rep.undecided('D5.dispatch', gt, gt.node.name, 'dispatch of get_tree not recognised (no comparison of the argument with a TreeTypes member)', construct=cons)
             continue
-        good = c is not None and isinstance(tt, ast.Attribute) and tt.attr == m
-        rep.check('D5.dispatch', gt, gt.node.name, good, f'TreeTypes.{m} -> {c.name if c else None}',
-                  f'get_tree does not return the tree class whose tree_type is TreeTypes.{m}', construct=f'TreeTypes.{m}')
+        env = {k: (mem == m) for k, mem in member_atoms.items()}
+        for k in {a_ for _s, c_ in rets_ for a_ in atoms_of(c_)}:
+            if k.startswith('isinstance[') and 'TreeTypes' in k:
+                env[k] = True
+        taken = [(st_, substitute(c_, env)) for st_, c_ in rets_ if st_.value is not None]
+        sure = [st_ for st_, f_ in taken if f_ is True]
+        maybe = [st_ for st_, f_ in taken if f_ is not True and f_ is not False and satisfiable(f_)]
+        if len(sure) == 1 and not maybe:
+            c = built_class(sure[0])
+            tt = c.attrs.get('tree_type') if c else None
+            if c is None:
+                rep.undecided('D5.dispatch', gt, sure[0], f'what get_tree builds for TreeTypes.{m} is not a project class in sight', construct=cons)
+            else:
+                rep.check('D5.dispatch', gt, sure[0], isinstance(tt, ast.Attribute) and tt.attr == m, f'TreeTypes.{m} -> {c.name}',
+                          f'for TreeTypes.{m} get_tree returns {c.name}, whose tree_type is {short(tt) if tt is not None else None}', construct=cons)
+        elif not sure and not maybe:
+            rep.bad('D5.dispatch', gt, gt.node.name, f'for TreeTypes.{m} no return of get_tree is reached: it returns None and from_dict / train_vine fail', construct=cons)
+        else:
+            rep.undecided('D5.dispatch', gt, gt.node.name, f'which return is taken for TreeTypes.{m} depends on conditions that are not member tests', construct=cons)
 
 
 # ------------------------------------------------------------------------------ D6 formats
